@@ -45,6 +45,7 @@ type Cfg struct {
 	Marker         string            `json:"marker"`      // written after Serve returned and cleanup ran
 	ExitDelayMs    int               `json:"exitDelayMs"` // "cleanup" duration after Serve returns
 	NeverExit      bool              `json:"neverExit"`
+	ShutdownChatMs int               `json:"shutdownChatMs"` // after Serve returned: a log line to the real stderr every this many ms
 	Ctl            string            `json:"ctl"`
 	PreWrite       *WritePlan        `json:"preWrite"` // issued the moment serving starts
 	StartedFile    string            `json:"startedFile"`
@@ -246,6 +247,14 @@ func main() {
 		time.Sleep(200 * time.Millisecond)
 		vp.StormStop.Store(true)
 		time.Sleep(300 * time.Millisecond)
+	}
+	if cfg.ShutdownChatMs > 0 {
+		go func() {
+			for i := 0; ; i++ {
+				fmt.Fprintf(origErr, "[INFO] still flushing, attempt %d\n", i)
+				time.Sleep(time.Duration(cfg.ShutdownChatMs) * time.Millisecond)
+			}
+		}()
 	}
 	if cfg.NeverExit {
 		select {}
